@@ -2,6 +2,7 @@ import TakVerif.Impl.ServerMove
 import TakVerif.Spec.Notation
 
 /-! Lemmas for C11: the three move notations round-trip on every legal move shape. -/
+set_option linter.unusedSimpArgs false
 namespace Tak
 open Go
 
